@@ -1105,14 +1105,22 @@ func (r *resolver) refine(target Definition, y *Refine) error {
 	if y.presence != "" {
 		r.builder.Presence(target, y.presence)
 	}
+	// max-elements is a number or "unbounded": the one the refine states takes the place of
+	// the other
 	if y.maxElementsPtr != nil {
 		r.builder.MaxElements(target, *y.maxElementsPtr)
+		if h, valid := target.(HasUnbounded); valid && h.IsUnboundedSet() && h.Unbounded() {
+			h.setUnbounded(false)
+		}
 	}
 	if y.minElementsPtr != nil {
 		r.builder.MinElements(target, *y.minElementsPtr)
 	}
 	if y.unboundedPtr != nil {
 		r.builder.UnBounded(target, *y.unboundedPtr)
+		if h, valid := target.(HasMinMax); valid && *y.unboundedPtr && h.IsMaxElementsSet() {
+			h.setMaxElements(0)
+		}
 	}
 	for _, m := range y.Musts() {
 		h, valid := target.(HasMusts)
